@@ -10,10 +10,12 @@ oracle : an ETG.1000.6 SDO server model (vf/sim/sdo.py): after sdo_write the
          toggles alternate from 0, no message exceeds the mailbox.
 """
 import asyncio
+import struct
 
 from hypothesis import strategies as st
 
-from ebpfcat.ethercat import EtherCat, EtherCatError, Terminal
+from ebpfcat.ethercat import (
+    ECDataType, EtherCat, EtherCatError, ObjectEntry, Terminal)
 from ebpfcat.lock import MailboxLock
 
 from ..sim import bus as simbus
@@ -62,9 +64,21 @@ def case_strategy(draw):
                              first + 2 * seg, first + 2 * seg + 3,
                              first + seg + 6, first + 7, first + 8]),
             st.integers(0, 3 * mbx + 7)))
-        ops.append({"op": op, "len": max(0, length),
-                    "sub": draw(st.none() | st.integers(0, 10)),
-                    "seed": draw(st.integers(0, 255))})
+        o = {"op": op, "len": max(0, length),
+             "sub": draw(st.none() | st.integers(0, 10)),
+             "seed": draw(st.integers(0, 255))}
+        if draw(st.integers(0, 5)) == 0:
+            # through the typed ObjectEntry interface of the object dictionary
+            dtype, bits = draw(st.sampled_from(ENTRY_TYPES))
+            fmt = ECDataType[dtype].fmt
+            lo, hi = (0, 1) if fmt == "?" else dsl_range(fmt)
+            if dtype.startswith("BIT"):
+                hi = (1 << bits) - 1
+            o.update(entry={"dtype": dtype, "bits": bits,
+                            "value": draw(st.integers(lo, hi))},
+                     len=struct.calcsize("<" + fmt),
+                     sub=draw(st.integers(0, 10)))
+        ops.append(o)
     return {"out_sz": out_sz, "in_sz": in_sz, "ops": ops,
             "prefer_normal": draw(st.booleans()),
             "delays": draw(st.lists(st.integers(0, 3), min_size=1,
@@ -84,6 +98,38 @@ def value(n, seed):
     return bytes((seed + 11 * i + (i >> 3)) & 0xff for i in range(n))
 
 
+ENTRY_TYPES = [("BOOLEAN", 1), ("INTEGER8", 8), ("UNSIGNED8", 8),
+               ("INTEGER16", 16), ("UNSIGNED16", 16), ("INTEGER32", 32),
+               ("UNSIGNED32", 32), ("INTEGER64", 64), ("UNSIGNED64", 64),
+               ("BIT1", 1), ("BIT2", 2), ("BIT4", 4), ("BIT7", 7),
+               ("BIT8", 8)]
+
+
+def dsl_range(fmt):
+    n = 8 * struct.calcsize("<" + fmt)
+    return (-(1 << n - 1), (1 << n - 1) - 1) if fmt.islower() \
+        else (0, (1 << n) - 1)
+
+
+def op_bytes(op):
+    """the value bytes of the transfer"""
+    e = op.get("entry")
+    if e:
+        return struct.pack("<" + ECDataType[e["dtype"]].fmt, e["value"])
+    return value(op["len"], op["seed"])
+
+
+def entry_of(t, index, op):
+    e = op["entry"]
+    oe = ObjectEntry(t, index)
+    oe.valueInfo = op["sub"]
+    oe.dataType = ECDataType[e["dtype"]]
+    oe.bitLength = e["bits"]
+    oe.name = "generated"
+    oe.objectAccess = 0x3f
+    return oe
+
+
 def kind_of(op, n, case):
     mbx = case["in_sz"] if op["op"] == "read" else case["out_sz"]
     if op["op"] == "write":
@@ -100,7 +146,7 @@ def run_case(case):
     for i, op in enumerate(case["ops"]):
         index = 0x2000 + i
         if op["op"] == "read":
-            v = value(op["len"], op["seed"])
+            v = op_bytes(op)
             if op["sub"] is None:
                 # complete access: split over subindexes 1..3
                 cut = [len(v) // 3, 2 * len(v) // 3]
@@ -130,14 +176,22 @@ def run_case(case):
         for i, op in enumerate(case["ops"]):
             index = 0x2000 + i
             try:
-                if op["op"] == "read":
+                if op["op"] == "read" and op.get("entry"):
+                    r = await asyncio.wait_for(
+                        entry_of(t, index, op).read(), 5)
+                    results.append(("ok", struct.pack(
+                        "<" + ECDataType[op["entry"]["dtype"]].fmt, r)))
+                elif op["op"] == "read":
                     r = await asyncio.wait_for(
                         t.sdo_read(index, op["sub"]), 5)
                     results.append(("ok", r))
+                elif op.get("entry"):
+                    await asyncio.wait_for(entry_of(t, index, op).write(
+                        op["entry"]["value"]), 5)
+                    results.append(("ok", None))
                 else:
                     await asyncio.wait_for(
-                        t.sdo_write(value(op["len"], op["seed"]), index,
-                                    op["sub"]), 5)
+                        t.sdo_write(op_bytes(op), index, op["sub"]), 5)
                     results.append(("ok", None))
             except asyncio.TimeoutError:
                 results.append(("timeout", None))
@@ -185,7 +239,7 @@ def run_case(case):
             break
         status, val = results[i]
         index = 0x2000 + i
-        want = value(op["len"], op["seed"])
+        want = op_bytes(op)
         if status != "ok":
             return fail(i, f"{status}: {val}; server log {srv.log[-4:]}, "
                            f"denied accesses {term.denied}")
